@@ -231,10 +231,17 @@ def check_option_parameter(ctx, ck, rule='R-KIND.option-parameter'):
     dests = {o.dest for o in registered_options(m.func('mininec.main')).values()} | \
             {o.dest for o in registered_options(mainf).values()}
     n = 0
-    for l in [x for x in ast.walk(mainf.node) if isinstance(x, ast.For)]:
+    scan = [mainf] + [g_ for g_ in m.all_funcs() if g_.cls is None and g_.module is m.func('mininec.main').module
+                      and g_.qual != 'mininec.main']
+    # (the options may be registered in a parser factory; what is looped over as `args.<name>` is an option as well)
+    for g_ in scan:
+        dests |= {o.dest for o in registered_options(g_).values()}
+        dests |= {x.iter.attr for x in ast.walk(g_.node) if isinstance(x, ast.For) and isinstance(x.iter, ast.Attribute)
+                  and isinstance(x.iter.value, ast.Name) and x.iter.value.id == 'args'}
+    for mainf, l in [(g_, x) for g_ in scan for x in ast.walk(g_.node) if isinstance(x, ast.For)]:
         it = l.iter
         d = None
-        if isinstance(it, ast.Attribute) and isinstance(it.value, ast.Name) and it.value.id == 'args':
+        if isinstance(it, ast.Attribute) and isinstance(it.value, ast.Name) and it.attr in dests:
             d = it.attr
         elif isinstance(it, ast.Call) and isinstance(it.func, ast.Name) and it.func.id == 'getattr' and len(it.args) >= 2 \
                 and isinstance(it.args[1], ast.Constant):
@@ -258,20 +265,23 @@ def check_option_parameter(ctx, ck, rule='R-KIND.option-parameter'):
             sib = [q_ for q_ in params if q_ != p_ and fam + q_ in dests]
             if not sib:
                 continue
-            if any(isinstance(a_, ast.Starred) for a_ in c.args) or any(k_.arg is None for k_ in c.keywords):
-                raise AnalysisError('%s: arguments of %s are not written out' % (mainf.qual, norm(c)[:60]))
+            # (`**kw` handed on / a bundle of keywords: what it holds is not judged, what is written out is)
+            open_ = any(isinstance(a_, ast.Starred) for a_ in c.args) or any(k_.arg is None for k_ in c.keywords)
             pos = [x.arg for x in g.node.args.posonlyargs + g.node.args.args][1:]
             given = {}
             for i_, a_ in enumerate(c.args):
+                if isinstance(a_, ast.Starred):
+                    break
                 if i_ < len(pos):
                     given[pos[i_]] = a_
             for k_ in c.keywords:
-                given[k_.arg] = k_.value
+                if k_.arg is not None:
+                    given[k_.arg] = k_.value
 
             def is_none(e):
                 return e is None or (isinstance(e, ast.Constant) and e.value is None)
             wrong = [q_ for q_ in sib if not is_none(given.get(q_))]
-            ok = not is_none(given.get(p_)) and not wrong
+            ok = (open_ or not is_none(given.get(p_))) and not wrong
             n += 1
             ck.ob(rule, '%s|for args.%s|%s' % (nm, d, norm(c)[:50]), ok, mainf.loc(c),
                   'the value of --%s goes to the parameter `%s`' % (d.replace('_', '-'), p_) if ok else
@@ -727,6 +737,13 @@ def run(ctx, ck):
     check_solve_order(ctx, ck, rule='R-FRESH.solve-order')
     # the value of an option named after a constructor parameter reaches that parameter
     ck.rule('R-KIND.option-parameter', 'a value read from --<family>-<p> is handed to the parameter <p> of the load it creates, not to a sibling parameter')
-    ck.floor('load constructions bound to their option', check_option_parameter(ctx, ck), 4)
+    n_op = check_option_parameter(ctx, ck)
+    ck.info('load_constructions_bound_to_their_option', n_op)
+    # (a command line parsed by a table of option kinds has no such loops: nothing to judge, the positive example of
+    # the catalogue shows on every thorough run that the rule fires on today's layout)
+    n_direct = sum(1 for x_ in ast.walk(ctx.flat('mininec.main').node)
+                   if isinstance(x_, ast.For) and isinstance(x_.iter, ast.Attribute) and x_.iter.attr.startswith('skin_effect_')
+                   for c_ in ast.walk(x_) if isinstance(c_, ast.Call) and (dotted(c_.func) or '').endswith('Skin_Effect_Load'))
+    ck.floor('load constructions bound to their option', n_op, min(n_direct, 4))
     ck.undecided += ['Bessel-function asymptote / closed-form wire impedance values',
                      'numerical equality of loaded and unloaded feed impedance']
